@@ -67,6 +67,7 @@ type PacketNet struct {
 	events    []Event
 	fault     FaultFunc
 	blackhole bool
+	sendErr   error
 	nextPort  int
 	overflow  int
 	// ClientIP is the source IP given to client sockets.
@@ -160,6 +161,14 @@ func NewPacketNet() *PacketNet {
 func (n *PacketNet) SetFault(f FaultFunc) {
 	n.mu.Lock()
 	n.fault = f
+	n.mu.Unlock()
+}
+
+// SetSendError makes every WriteTo fail with err (nil = back to normal): the
+// host lost its route or interface (ENETUNREACH, ENOBUFS, EPERM ...).
+func (n *PacketNet) SetSendError(err error) {
+	n.mu.Lock()
+	n.sendErr = err
 	n.mu.Unlock()
 }
 
@@ -337,6 +346,11 @@ func (c *PacketConn) WriteTo(p []byte, addr net.Addr) (int, error) {
 	if !c.wdl.IsZero() && !time.Now().Before(c.wdl) {
 		n.mu.Unlock()
 		return 0, ErrTimeout
+	}
+	if n.sendErr != nil {
+		err := n.sendErr
+		n.mu.Unlock()
+		return 0, err
 	}
 	d := &Datagram{Idx: len(n.dgrams), From: c.addr, To: ua, Data: append([]byte(nil), p...), At: time.Since(n.start)}
 	n.dgrams = append(n.dgrams, d)
